@@ -49,7 +49,12 @@ fn nth_sequence(cl: &[EdgeSpec], k: u64) -> Vec<EdgeSpec> {
 }
 
 fn check_one(edges: &[EdgeSpec], untracked: bool, with_extra: bool, counts: &mut Counts) -> Option<String> {
-    #[cfg(not(feature = "persist"))]
+    #[cfg(feature = "shuttle")]
+    {
+        let _ = (edges, untracked, with_extra, counts);
+        return Some("origin round trips are not available in the shuttle build".into());
+    }
+    #[cfg(all(not(feature = "persist"), not(feature = "shuttle")))]
     {
         let r = salsa::verif::origin::round_trip(edges, untracked, with_extra);
         counts.inc("origins_built");
